@@ -61,6 +61,9 @@ def concreteTy (D : Decls) : TyRef → Bool
   | .named t => !isIfaceT D t
   | _ => false
 
+/-- clause types without methods to compare: struct types, pointers to them, `nil`, `interface{}` -/
+def plainTy (D : Decls) (ty : TyRef) : Bool := concreteTy D ty || ty == .nil || ty == .empty
+
 /-- what is known statically about a variable of the scenario -/
 inductive Info where
   | strct (t : Nat)
@@ -185,23 +188,26 @@ def classStmt (F : Facts) (D : Decls) (e : CEnv) : Stmt → Option String × CEn
   | .tswitch y bindForm cs =>
     (match clook e y with
      | .ifc src dyn _ _ =>
-       let ifaceClause := cs.any (fun c => c.any (fun ty => tyIsIface D ty))
        if isTyped src then
          let gg := cs.all (fun c => c.all (fun ty => assertLegal D (tyMethods D src) ty))
          let gy := !F.tswitchCasesChecked || cs.all (fun c => c.all (fun ty => ty == .nil || assertLegalY F D src ty))
          (if gy != gg then (some "tswitch-impossible-case", e)
           else if !gg then (none, e)
-          else if ifaceClause || cs.any (fun c => c.any (fun ty => ty == .nil)) then (some "tswitch-interface-or-nil-clause", e)
-          else (none, e))
+          else
+            -- the clause test is `matchCase` on the dynamic type (9f81224): the input is in a class exactly
+            -- when the clause it selects differs from the specification's — what is left is the
+            -- names-only comparison of interface clause types (signatures, ambiguous names: F05-20)
+            let dy : Option Dyn := dyn.map (fun d => ⟨d.t, d.ptr, [], true⟩)
+            if typeSwitchY F.defaultSwap F.clauseChain (matchCaseY F D true bindForm dy) cs == typeSwitchG D dyn cs then (none, e)
+            else (some "tswitch-interface-names-only", e))
        else
-         -- interface{} operand: the clause test of `_case` compares representations (F05-14, F05-15).
-         -- The input is in a class exactly when that test, applied to the clauses in source order,
-         -- selects another clause than the specification does — the position of the default clause
-         -- is no longer part of any class (F05-16, repaired by ff01288)
+         -- interface{} operand: the same test; a value stored raw in interface{} (a pointer, or a struct
+         -- whose type has no method of its own) has no method for an interface clause type (F06)
+         let wr := match dyn with | some d => wrappedY D src d | none => true
          let dy : Option Dyn := dyn.map (fun d => ⟨d.t, d.ptr, [], wrappedY D src d⟩)
-         if typeSwitchY false .nextTest (matchCaseY D false bindForm dy) cs == typeSwitchG D dyn cs then (none, e)
-         else if ifaceClause then (some "tswitch-interface-clause", e)
-         else (some "tswitch-empty-interface-representation", e)
+         if typeSwitchY F.defaultSwap F.clauseChain (matchCaseY F D false bindForm dy) cs == typeSwitchG D dyn cs then (none, e)
+         else if !wr then (some "tswitch-unwrapped-value", e)
+         else (some "tswitch-interface-names-only", e)
      | _ => (none, e))
   | .host _ _ => (none, e)
 
